@@ -1,0 +1,60 @@
+//! Verification hook (only compiled with `--cfg taffy_verif`): a thread-local recorder of the interactions between
+//! layout algorithms and the tree. Nothing is recorded unless a recording has been started with [`start`].
+#![allow(missing_docs, clippy::missing_docs_in_private_items)]
+use crate::tree::{Layout, LayoutInput, LayoutOutput, NodeId};
+use std::cell::RefCell;
+use std::vec::Vec;
+
+/// One recorded interaction
+#[derive(Debug, Clone)]
+pub enum VerifEvent {
+    /// `compute_cached_layout` missed the cache and is about to run the node's algorithm
+    Enter(u64, LayoutInput),
+    /// the node's algorithm returned
+    Exit(u64, LayoutInput, LayoutOutput),
+    /// `compute_cached_layout` answered from the cache
+    Hit(u64, LayoutInput, LayoutOutput),
+    /// `compute_child_layout` was called with `RunMode::PerformHiddenLayout` (bypasses the cache)
+    Hidden(u64, LayoutInput),
+    /// `set_unrounded_layout`
+    Set(u64, Layout),
+}
+
+std::thread_local! {
+    static TRACE: RefCell<Option<Vec<VerifEvent>>> = const { RefCell::new(None) };
+}
+
+/// Start (or restart) recording on this thread
+pub fn start() {
+    TRACE.with(|t| *t.borrow_mut() = Some(Vec::new()));
+}
+
+/// Stop recording and return what was recorded
+pub fn take() -> Vec<VerifEvent> {
+    TRACE.with(|t| t.borrow_mut().take().unwrap_or_default())
+}
+
+#[inline]
+fn push(e: impl FnOnce() -> VerifEvent) {
+    TRACE.with(|t| {
+        if let Some(v) = t.borrow_mut().as_mut() {
+            v.push(e());
+        }
+    });
+}
+
+pub(crate) fn enter(node: NodeId, inputs: LayoutInput) {
+    push(|| VerifEvent::Enter(u64::from(node), inputs));
+}
+pub(crate) fn exit(node: NodeId, inputs: LayoutInput, output: LayoutOutput) {
+    push(|| VerifEvent::Exit(u64::from(node), inputs, output));
+}
+pub(crate) fn hit(node: NodeId, inputs: LayoutInput, output: LayoutOutput) {
+    push(|| VerifEvent::Hit(u64::from(node), inputs, output));
+}
+pub(crate) fn hidden(node: NodeId, inputs: LayoutInput) {
+    push(|| VerifEvent::Hidden(u64::from(node), inputs));
+}
+pub(crate) fn set(node: NodeId, layout: &Layout) {
+    push(|| VerifEvent::Set(u64::from(node), *layout));
+}
